@@ -34,7 +34,13 @@ pub enum Step {
     QuerySupply { tag: String, denom: String },
     QuerySmartGet { tag: String, addr: String, key: String },
     /// smart query answered by iterating the other contract's storage
-    QuerySmartList { tag: String, addr: String, descending: bool },
+    QuerySmartList {
+        tag: String,
+        addr: String,
+        descending: bool,
+        #[serde(default)]
+        from: Option<String>,
+    },
     ReadOwn { tag: String, key: String },
     RangeOwn { tag: String },
     /// fail iff the stored number under `key` (0 when absent) is below `min`
@@ -72,7 +78,12 @@ pub enum QueryMsg {
     /// query that itself queries a balance (nested query path)
     Balance { addr: String, denom: String },
     /// everything the contract holds, by ITERATION (ascending or descending), as (key, value) strings
-    List { descending: bool },
+    List {
+        descending: bool,
+        /// inclusive start key of the iteration
+        #[serde(default)]
+        from: Option<String>,
+    },
 }
 
 #[derive(Clone, Debug)]
@@ -190,8 +201,8 @@ fn run(deps: DepsMut, env: &Env, script: &Script, ev: &mut Ev) -> StdResult<Resp
                 };
                 ev.obs.push((tag.clone(), o));
             }
-            Step::QuerySmartList { tag, addr, descending } => {
-                let r: StdResult<Vec<(String, String)>> = deps.querier.query_wasm_smart(addr.clone(), &QueryMsg::List { descending: *descending });
+            Step::QuerySmartList { tag, addr, descending, from } => {
+                let r: StdResult<Vec<(String, String)>> = deps.querier.query_wasm_smart(addr.clone(), &QueryMsg::List { descending: *descending, from: from.clone() });
                 let o = match r {
                     Ok(v) => Obs::Range(v.into_iter().map(|(k, v)| (k.into_bytes(), v.into_bytes())).collect()),
                     Err(e) => Obs::Err(e.to_string()),
@@ -296,11 +307,11 @@ pub fn query(deps: Deps, _env: Env, msg: QueryMsg) -> StdResult<Binary> {
             let c = deps.querier.query_balance(addr, denom)?;
             to_json_binary(&c.amount)
         }
-        QueryMsg::List { descending } => {
+        QueryMsg::List { descending, from } => {
             let order = if descending { cosmwasm_std::Order::Descending } else { cosmwasm_std::Order::Ascending };
             let all: Vec<(String, String)> = deps
                 .storage
-                .range(None, None, order)
+                .range(from.as_ref().map(|f| f.as_bytes()), None, order)
                 .map(|(k, v)| (String::from_utf8_lossy(&k).to_string(), String::from_utf8_lossy(&v).to_string()))
                 .collect();
             to_json_binary(&all)
